@@ -37,7 +37,9 @@ func (w *clientConcWorld) Check(c *core.Case) ([]core.Violation, bool) {
 	if err := json.Unmarshal(c.In, &in); err != nil {
 		panic(err)
 	}
-	vs := execConcRun(in, nil)
+	ev, done := core.RunTrace("clientc14")
+	vs := execConcRun(in, ev)
+	done()
 	for i := range vs {
 		vs[i].Case = c
 	}
@@ -229,7 +231,10 @@ func execConcRun(in runIn, ev func(k string, f any)) []core.Violation {
 		clients[c] = cl
 	}
 	ngo := 8 + rng.Intn(57)
-	type job struct{ c, k int; gomod bool }
+	type job struct {
+		c, k  int
+		gomod bool
+	}
 	jobs := make([]job, ngo)
 	for i := range jobs {
 		jobs[i] = job{rng.Intn(nclients), rng.Intn(nmod), rng.Intn(3) == 0}
